@@ -39,12 +39,13 @@ def is_false(e):
 class SymBool(object):
     """z3 Bool wrapper.  `e` is a z3 BoolRef, or a lazy wide comparison
     ('lazy', fn, a, b) whose z3 term is only built if really needed."""
-    __slots__ = ('e', 'on_true', 'on_false')
+    __slots__ = ('e', 'on_true', 'on_false', 'meta')
 
     def __init__(self, e, on_true=None, on_false=None):
         self.e = e
         self.on_true = on_true
         self.on_false = on_false
+        self.meta = None
 
     def z(self):
         e = self.e
@@ -69,42 +70,42 @@ class SymBool(object):
         x = self._lift(o)
         if x is None:
             return NotImplemented
-        return mkbool(z3.And(self.z(), x))
+        return mkbool(z3.And(self.z(), x), simp=False)
     __rand__ = __and__
 
     def __or__(self, o):
         x = self._lift(o)
         if x is None:
             return NotImplemented
-        return mkbool(z3.Or(self.z(), x))
+        return mkbool(z3.Or(self.z(), x), simp=False)
     __ror__ = __or__
 
     def __xor__(self, o):
         x = self._lift(o)
         if x is None:
             return NotImplemented
-        return mkbool(z3.Xor(self.z(), x))
+        return mkbool(z3.Xor(self.z(), x), simp=False)
     __rxor__ = __xor__
 
     def __invert__(self):
         if isinstance(self.e, tuple):
             return SymBool(('not', self.e), self.on_false, self.on_true)
-        return mkbool(z3.Not(self.e), self.on_false, self.on_true)
+        return mkbool(z3.Not(self.e), self.on_false, self.on_true, simp=False)
 
     def __eq__(self, o):
         x = self._lift(o)
         if x is None:
             return False
-        return mkbool(self.z() == x)
+        return mkbool(self.z() == x, simp=False)
 
     def __ne__(self, o):
         x = self._lift(o)
         if x is None:
             return True
-        return mkbool(self.z() != x)
+        return mkbool(self.z() != x, simp=False)
 
     def implies(self, o):
-        return mkbool(z3.Implies(self.z(), self._lift(o)))
+        return mkbool(z3.Implies(self.z(), self._lift(o)), simp=False)
 
     def __hash__(self):
         return hash(bool(self))
@@ -117,14 +118,26 @@ class SymBool(object):
         return 'SymBool(%s)' % (self.e if not isinstance(self.e, tuple) else 'lazy')
 
 
-def mkbool(e, on_true=None, on_false=None):
-    """SymBool or plain bool when the term is a literal"""
-    e = z3.simplify(e) if not isinstance(e, tuple) else e
+def mkbool(e, on_true=None, on_false=None, simp=True):
+    """SymBool or plain bool when the term is a literal.  z3.simplify walks the whole term: callers
+    pass simp=False for large terms"""
     if not isinstance(e, tuple):
         if z3.is_true(e):
             return True
         if z3.is_false(e):
             return False
+        if simp:
+            e = z3.simplify(e)
+            if z3.is_true(e):
+                return True
+            if z3.is_false(e):
+                return False
+        elif z3.is_not(e):
+            c = e.arg(0)
+            if z3.is_true(c):
+                return False
+            if z3.is_false(c):
+                return True
     return SymBool(e, on_true, on_false)
 
 
